@@ -297,7 +297,12 @@ class Engine(Interp, InterpExpr, InterpComp, InterpStmt, InterpCall, InterpBuilt
         for c2 in [con] + others:
             if c2.effect and c2.effect not in logged:
                 logged.add(c2.effect)
-                self.effects.append((c2.effect, [vars_[a.arg] for a in fi.node.args.args if a.arg != 'self']))
+                # `effect_receiver = True`: the receiver is logged as first argument (one inherited method called on
+                # several objects, e.g. Commander.check on the Starter and on the Stopper)
+                recv = bool(c2.attrs.get('effect_receiver'))
+                self.effects.append((c2.effect, [vars_[a.arg] for a in fi.node.args.args if a.arg != 'self' or recv]))
+                # heap just before the call, for the specification view effect_pre(name, k)
+                self.effect_heaps = getattr(self, 'effect_heaps', []) + [(self.effects[-1], heap_before)]
             if c2 is not con:
                 self.by_contract.add(c2.target)
         if isinstance(con.returns, (tuple, list)):
@@ -380,7 +385,7 @@ class Engine(Interp, InterpExpr, InterpComp, InterpStmt, InterpCall, InterpBuilt
         finally:
             self.callee_clause -= 1
 
-    EFFECT_VOCABULARY = {'no_effect', 'count_effects', 'effect_at', 'effects'}
+    EFFECT_VOCABULARY = {'no_effect', 'count_effects', 'effect_at', 'effect_pre', 'effects'}
 
     def _mentions_effects(self, clause):
         return any(isinstance(n, ast.Name) and n.id in self.EFFECT_VOCABULARY for n in ast.walk(clause))
